@@ -6,6 +6,7 @@ import DaskModel.Model.Elemwise
 import DaskModel.Model.MapBlocks
 import DaskModel.Model.Meta
 import DaskModel.Model.Rewrite
+import DaskModel.Model.FuseSlice
 import DaskModel.Generated.FuseRules
 open Dask
 
@@ -343,6 +344,38 @@ def hRewrite : Handler := handler fun a => match a with
              .list (f.allocs.map SExp.ofNats)]))
   | _ => none
 
+/-! C25: fuse_slice -/
+def toSl? : SExp → Option Dask.FuseSlice.Sl
+  | .list [a, b, c] => do
+    let stop ← match b with
+      | .sym "none" => some none
+      | e => (e.toNat?).map some
+    pure { start := ← a.toNat?, stop := stop, step := ← c.toNat? }
+  | _ => none
+
+def ofSl (s : Dask.FuseSlice.Sl) : SExp := .list [SExp.ofNat s.start, SExp.ofOptNat s.stop, SExp.ofNat s.step]
+
+/-- `(fuseslice a b)` with slices `(start stop|none step)` ↦ the fused slice; `(fuseslice a i)` for an integer -/
+def hFuseSlice : Handler := handler fun a => match a with
+  | [x, .int i] => do
+    let x ← toSl? x
+    if i < 0 then none else pure (SExp.ofNat (Dask.FuseSlice.fuseInt x i.toNat))
+  | [x, y] => do
+    let x ← toSl? x
+    let y ← toSl? y
+    pure (ofSl (Dask.FuseSlice.fuse x y))
+  | _ => none
+
+/-- `(chainat n a b count)` ↦ source positions of the first `count` elements of `x[a][b]` (`none` past the end) -/
+def hChainAt : Handler := handler fun a => match a with
+  | [n, x, y, c] => do
+    let n ← n.toNat?
+    let x ← toSl? x
+    let y ← toSl? y
+    let c ← c.toNat?
+    pure (.list ((List.range c).map fun j => SExp.ofOptNat (Dask.FuseSlice.chainAt n x y j)))
+  | _ => none
+
 /-! C25: pipeline chunk metadata -/
 open Dask.Meta in
 partial def toProg? : SExp → Option Prog
@@ -377,6 +410,7 @@ end HlgDrv
 
 def table : List (String × Handler) := [
   ("metachunks", HlgDrv.hMetaChunks), ("metablocks", HlgDrv.hMetaBlocks), ("rewrite", HlgDrv.hRewrite),
+  ("fuseslice", HlgDrv.hFuseSlice), ("chainat", HlgDrv.hChainAt),
   ("mbplan", HlgDrv.hMbPlan), ("blockinfo", HlgDrv.hBlockInfo), ("loopdims", HlgDrv.hLoopDims),
   ("alignfalse", HlgDrv.hAlignFalse),
   ("bshapes", HlgDrv.hBShapes), ("cbd", HlgDrv.hCbd), ("unify", HlgDrv.hUnify), ("argpos", HlgDrv.hArgPos),
